@@ -189,8 +189,8 @@ AREAS["C12"] = {'area': 'c12',
                'executable model; the model is run against the real encoders and decoders on >20000 generated values and byte strings per run and '
                'must produce the same bytes, the same outcome class and the same decoded values',
  'level_note': "trusted: Coq kernel, extraction, OCaml driver, the Go harness; modelled not verified: protobuf-go's parser (agreement is checked per "
-               'run, not proved), float32<->float64 conversion of the serial format (C12_serial_roundtrip_partial assumes the narrowed value is a '
-               '32-bit pattern); Go strings / slices longer than 2^31 bytes are outside the statements',
+               'run, not proved), float32<->float64 conversion of the serial format (modelled on bit patterns and diffed against the hardware conversion per run; C12_serial_roundtrip holds for '
+               'every 64-bit pattern); Go strings / slices longer than 2^31 bytes are outside the statements',
  'assumptions': ['times are compared as the instant in ns since the Unix epoch (location and monotonic reading of time.Time are not part of the wire '
                  'format); nil and empty Data / point lists are the same value',
                  'variable-length fields are shorter than 2^31 bytes and an encoded node inside a list or reply is shorter than 2^64 bytes',
